@@ -181,6 +181,9 @@ pub enum Stmt {
     MidAssign(LVal, Expr, Option<Expr>, Expr),
     /// verbatim text (statements only the implementation interprets)
     Raw(String),
+    Cls,
+    /// LIST (whole program)
+    List,
 }
 
 fn render_branch(b: &Branch) -> String {
@@ -205,16 +208,25 @@ impl Stmt {
             Stmt::Print(items) => {
                 let mut s = String::from("PRINT");
                 let mut first = true;
+                let mut prev_expr = false;
                 for it in items {
                     match it {
                         PItem::E(e) => {
-                            if first {
+                            // juxtaposed items are separated by a blank
+                            if first || prev_expr {
                                 s.push(' ');
                             }
                             s.push_str(&e.render());
+                            prev_expr = true;
                         }
-                        PItem::Semi => s.push(';'),
-                        PItem::Comma => s.push(','),
+                        PItem::Semi => {
+                            s.push(';');
+                            prev_expr = false;
+                        }
+                        PItem::Comma => {
+                            s.push(',');
+                            prev_expr = false;
+                        }
                     }
                     first = false;
                 }
@@ -304,6 +316,8 @@ impl Stmt {
                 None => format!("MID$({},{})={}", l.render(), p.render(), e.render()),
             },
             Stmt::Raw(t) => t.clone(),
+            Stmt::Cls => "CLS".into(),
+            Stmt::List => "LIST".into(),
         }
     }
 
